@@ -17,7 +17,7 @@ vars == <<assign, prog, done>>
 a_ == <<97>>  b_ == <<98>>  c_ == <<99>>  o_ == <<111>>  k_ == <<107>>  v_ == <<118>>  w_ == <<119>>  e1_ == <<101, 49>>
 S(t) == Str(t)
 \* spellings: 1-3 characters, none shared with the fixed grammar's lexemes; prefix-related pairs included
-Pool == { <<37>>, <<37, 37>>, <<37, 37, 37>>, <<167>>, <<167, 167>>, <<163>>, <<8364>>, <<162, 162>>, <<164>>, <<37, 167>>, <<167, 37>>, <<172>>, <<166>>, <<166, 166, 166>> }
+Pool == { <<43>>, <<37>>, <<37, 37>>, <<37, 37, 37>>, <<167>>, <<167, 167>>, <<163>>, <<8364>>, <<162, 162>>, <<164>>, <<37, 167>>, <<167, 37>>, <<172>>, <<166>>, <<166, 166, 166>> }
 Idents == {"root", "self", "key", "ctx", "keys", "fake", "union", "inter"}
 
 At1(name) == OQ(Q("@", <<Child(SName(name))>>))
@@ -49,7 +49,7 @@ DocSeq == << Obj(<<k_, c_, o_, a_, b_>>, <<IntV(1), Arr(Elems), Obj(Names, Elems
 TheCtx == Obj(<<v_, w_>>, <<IntV(1), S(e1_)>>)
 
 \* the prefix-related and mixed spellings only (the universe of the lexer model MC_Lexer)
-PrefixPool == { <<37>>, <<37, 37>>, <<37, 37, 37>>, <<37, 167>>, <<167, 37>> }
+PrefixPool == { <<43>>, <<37>>, <<37, 37>>, <<37, 37, 37>>, <<37, 167>>, <<167, 37>> }
 Assignments ==
   IF Universe = "pairs"
   THEN {[DefaultTok EXCEPT ![i1] = s1, ![i2] = s2] : i1 \in Idents, i2 \in Idents, s1 \in Pool, s2 \in Pool} \cup {DefaultTok}
